@@ -52,6 +52,9 @@ pub fn hub() -> &'static Hub {
     })
 }
 
+/// Number of seglog.synced hook events seen by this process (cross-checked against strace in the thorough tier).
+pub static SYNCED_EVENTS: std::sync::atomic::AtomicU64 = std::sync::atomic::AtomicU64::new(0);
+
 pub fn install() {
     let _ = hub();
     sierradb::verif::install(Box::new(|name, args| on_point(name, args)));
@@ -71,6 +74,7 @@ pub fn on_point(name: &'static str, args: &[u64]) {
         "ws.sync.begin" => SYNC_CTX.with(|c| c.set(Some((args[0], args[1])))),
         "ws.sync.end" => SYNC_CTX.with(|c| c.set(None)),
         "seglog.synced" => {
+            SYNCED_EVENTS.fetch_add(1, Ordering::Relaxed);
             // attribute the fsync to the bucket/segment being synced on this thread
             if let Some((b, s)) = SYNC_CTX.with(|c| c.get()) {
                 name = "fsync";
